@@ -102,7 +102,7 @@ PLANS = {
         module='RucteProps.C11',
         extra_modules=['RucteProps.C11Total'],
         theorems=['Ructe.C11.template_no_panic', 'Ructe.C11.template_err_in_range', 'Ructe.C11.template_accepts_whole', 'Ructe.C11.diag_in_range', 'Ructe.C11.noneOf_panics_witness', 'Ructe.C11.showErrors_pinned_panics_witness', 'Ructe.C11.reject_has_diag', 'Ructe.C11.template_fuel_mono', 'Ructe.C11.template_no_oom', 'Ructe.C11.template_total'],
-        runs=[dict(suite='parse', mix='examples,mutate,tokens,nesting,exhaustive,structured',
+        runs=[dict(suite='parse', mix='examples,mutate,tokens,nesting,exhaustive,structured,badutf8',
                    n=dict(quick=6000, thorough=120000), projection='accept', tags=['C11'])],
         correspondence='accept / reject / panic of template(), and for a rejection the line number, echoed line and caret column of every diagnostic, vs Ructe.template + Ructe.showErrors (message wording is not compared)',
         rule='token-alphabet strings (33 tokens) exhaustively to length 3 (quick) / 4 (thorough) behind a valid header, random token strings to length 9, mutations/splices of the example templates, structured templates, nesting 1..100 of every bracket / block kind closed and unclosed; non-trivial = distinct accepted syntax trees + rejected inputs with a diagnostic',
@@ -152,13 +152,13 @@ PLANS = {
     ),
     'C15': dict(
         module='RucteProps.C15',
-        extra_modules=['RucteProps.C15Directives'],
-        theorems=['Ructe.C15.spacelike_complete', 'Ructe.C15.layout_irrelevant_at_slot', 'Ructe.C15.comment_complete', 'Ructe.C15.multispace0_complete', 'Ructe.C15.spacelike_total', 'Ructe.C15.pinned_comment_counterexample', 'Ructe.C15.if_layout_irrelevant', 'Ructe.C15.if_else_layout_irrelevant', 'Ructe.C15.for_layout_irrelevant', 'Ructe.C15.if_name_layout_irrelevant'],
+        extra_modules=['RucteProps.C15Directives', 'RucteProps.C15Calls'],
+        theorems=['Ructe.C15.spacelike_complete', 'Ructe.C15.layout_irrelevant_at_slot', 'Ructe.C15.comment_complete', 'Ructe.C15.multispace0_complete', 'Ructe.C15.spacelike_total', 'Ructe.C15.pinned_comment_counterexample', 'Ructe.C15.if_layout_irrelevant', 'Ructe.C15.if_else_layout_irrelevant', 'Ructe.C15.for_layout_irrelevant', 'Ructe.C15.if_name_layout_irrelevant', 'Ructe.C15.match_layout_irrelevant', 'Ructe.C15.call_layout_irrelevant'],
         runs=[dict(suite='parse', mix='structured', n=dict(quick=5000, thorough=50000), projection='text', tags=['C15'])],
         correspondence='generated code, byte for byte, of canonical and perturbed prints of the same source tree vs the model\'s single answer',
         rule='every structured template printed canonically and twice with random admissible layouts (white space, LF, CRLF, tabs, 8 comment shapes incl. `**@` endings) at every slot kind; non-trivial = distinct accepted syntax trees',
         assumptions=[],
-        level_text='Proved: at every layout slot of the grammar any admissible layout is consumed completely and is indistinguishable from any other (spacelike_complete, layout_irrelevant_at_slot, comment_complete, multispace0_complete, spacelike_total, spacelike_sound). Compositional completeness lemmas for the directives are proved (if_layout_irrelevant, if_else_layout_irrelevant, for_layout_irrelevant, if_name_layout_irrelevant; match / call in C15Calls when present): any admissible layout at the slots of the directive yields the same node. The induction over a whole source tree is not proved; it is covered by the metamorphic oracle (canonical vs perturbed prints give byte-identical code and the documented tree) + tie on the full text.',
+        level_text='Proved: at every layout slot of the grammar any admissible layout is consumed completely and is indistinguishable from any other (spacelike_complete, layout_irrelevant_at_slot, comment_complete, multispace0_complete, spacelike_total, spacelike_sound). Compositional completeness lemmas for the directives are proved (if_layout_irrelevant, if_else_layout_irrelevant, for_layout_irrelevant, if_name_layout_irrelevant, match_layout_irrelevant, call_layout_irrelevant): any admissible layout at the slots of the directive yields the same node. The induction over a whole source tree is not proved; it is covered by the metamorphic oracle (canonical vs perturbed prints give byte-identical code and the documented tree) + tie on the full text.',
         level_note='Trusted: Lean kernel; hand-written model; generator\'s notion of admissible layout.',
         design_ref='DESIGN.md §6 C15',
     ),
